@@ -230,8 +230,16 @@ def main(prop, level, run, argv=None):
                             if f.rule == only_key.get('rule') and f.key == only_key.get('key')]
         code = finish(ctx, repo)
     except AnalysisError as e:
-        print('ANALYSIS-ERROR property=%s %s' % (prop, e))
+        # a rule that could not be evaluated does not hide what the rules before it already found: violations win
         code = 2
+        try:
+            known = {(k['rule'], k['key']) for k in load_known() if k.get('status') == 'known' and k.get('property') == prop}
+            if any((f.rule, f.key) not in known for f in ctx.findings):
+                ctx.extra['analysis_error'] = str(e)
+                code = finish(ctx, repo if 'repo' in locals() else None)
+        except Exception:
+            code = 2
+        print('ANALYSIS-ERROR property=%s %s' % (prop, e))
     except Exception:
         traceback.print_exc()
         print('ANALYSIS-ERROR property=%s internal error in the analyser (traceback above)' % prop)
